@@ -3,6 +3,7 @@ package vegeta_test
 import (
 	"encoding/base64"
 	"fmt"
+	"io"
 	"math"
 	"net/http"
 	"os"
@@ -11,6 +12,7 @@ import (
 	"strings"
 	"sync"
 	"testing"
+	"time"
 
 	"github.com/tsenart/vegeta/v12/internal/zzverif/vh"
 	vegeta "github.com/tsenart/vegeta/v12/lib"
@@ -38,6 +40,8 @@ type c15Case struct {
 	// static: the targets are read eagerly (ReadAllTargets, as the attack command does by default)
 	// from a document of this format instead of being given as literals
 	Eager string `json:",omitempty"`
+	// static: every NilEvery-th call of a goroutine passes a nil *Target (rejected with ErrNilTarget: not a draw)
+	NilEvery int `json:",omitempty"`
 }
 
 func c15Letters(i int) string {
@@ -323,6 +327,12 @@ func evalC15Static(c c15Case) (active int, err error) {
 			ready.Done()
 			<-start
 			for i := 0; i < n; i++ {
+				if c.NilEvery > 0 && (i+g)%c.NilEvery == 0 {
+					if err := tr(nil); err != vegeta.ErrNilTarget {
+						errs[g] = fmt.Errorf("static targeter called with a nil target returned %v, want ErrNilTarget", err)
+						return
+					}
+				}
 				var t vegeta.Target
 				if err := tr(&t); err != nil {
 					errs[g] = fmt.Errorf("static targeter returned %v", err)
@@ -367,7 +377,7 @@ func evalC15Static(c c15Case) (active int, err error) {
 	lo, hi := c.Draws/c.Targets, (c.Draws+c.Targets-1)/c.Targets
 	for i, n := range total {
 		if n < lo || n > hi {
-			return active, fmt.Errorf("static targeter with %d targets after %d draws by %d goroutines: target %d was used %d times, want %d or %d (uses: %v)", c.Targets, c.Draws, c.Goroutines, i, n, lo, hi, total)
+			return active, fmt.Errorf("static targeter with %d targets after %d draws by %d goroutines (nil-target calls every %d): target %d was used %d times, want %d or %d (uses: %v)", c.Targets, c.Draws, c.Goroutines, c.NilEvery, i, n, lo, hi, total)
 		}
 	}
 	return active, nil
@@ -385,6 +395,9 @@ func TestC15Concurrent(t *testing.T) {
 			c.Draws = rapid.IntRange(0, 10000).Draw(t, "n")
 			if rapid.Bool().Draw(t, "many") {
 				c.Draws = rapid.IntRange(10000, 200000).Draw(t, "n2")
+			}
+			if rapid.IntRange(0, 2).Draw(t, "nils") == 0 {
+				c.NilEvery = rapid.SampledFrom([]int{1, 2, 7, 100}).Draw(t, "nilevery")
 			}
 			if rapid.Bool().Draw(t, "eager") {
 				c.Eager = rapid.SampledFrom([]string{"http", "json"}).Draw(t, "eagerfmt")
@@ -420,3 +433,98 @@ func TestC15Concurrent(t *testing.T) {
 }
 
 func init() { vh.RegisterReplay("C15.concurrent", vh.Replayer(runC15)) }
+
+// ---- a source that ends in an error: the callers still all get an answer
+
+type c15Tail struct {
+	Targets    int
+	Goroutines int
+	Tail       string // "longheader": the last target's header block holds a line of 70 KiB; "readerror": the source fails inside the last header block
+}
+
+type c15FailingReader struct {
+	data []byte
+	pos  int
+}
+
+func (r *c15FailingReader) Read(p []byte) (int, error) {
+	if r.pos >= len(r.data) {
+		return 0, fmt.Errorf("harness: the source failed")
+	}
+	n := copy(p, r.data[r.pos:])
+	r.pos += n
+	return n, nil
+}
+
+func runC15Tail(c c15Tail) error {
+	var doc strings.Builder
+	for i := 0; i < c.Targets; i++ {
+		fmt.Fprintf(&doc, "%s http://c15.test/t/%d\nX-H0: v0-%d\n\n", c15Letters(i), i, i)
+	}
+	doc.WriteString("GET http://c15.test/tail\nX-A: 1\n")
+	var src io.Reader
+	if c.Tail == "longheader" {
+		doc.WriteString("X-Long: " + strings.Repeat("x", 70000) + "\nX-B: 2\n\n")
+		src = strings.NewReader(doc.String())
+	} else {
+		doc.WriteString("X-B: 2\nX-C") // the source fails here, inside the header block
+		src = &c15FailingReader{data: []byte(doc.String())}
+	}
+	tr := vegeta.NewHTTPTargeter(src, nil, nil)
+	seen := make([]int32, c.Targets)
+	var wg sync.WaitGroup
+	var mu sync.Mutex
+	var firstErr error
+	answers := 0
+	for g := 0; g < c.Goroutines; g++ {
+		wg.Add(1)
+		go func() {
+			defer wg.Done()
+			for n := 0; n < c.Targets/c.Goroutines+4; n++ {
+				var t vegeta.Target
+				err := tr(&t)
+				mu.Lock()
+				answers++
+				if err == nil {
+					var idx int
+					if _, e := fmt.Sscanf(t.URL, "http://c15.test/t/%d", &idx); e == nil && idx >= 0 && idx < c.Targets {
+						if seen[idx]++; seen[idx] > 1 && firstErr == nil {
+							firstErr = fmt.Errorf("target %d was delivered twice", idx)
+						}
+						if (t.Method != c15Letters(idx) || t.Header.Get("X-H0") != fmt.Sprintf("v0-%d", idx)) && firstErr == nil {
+							firstErr = fmt.Errorf("target %d mixes parts of different targets: %+v", idx, t)
+						}
+					}
+				}
+				mu.Unlock()
+			}
+		}()
+	}
+	done := make(chan struct{})
+	go func() { wg.Wait(); close(done) }()
+	what := fmt.Sprintf("http input of %d targets followed by one whose header block ends in an error (%s), %d goroutines x %d calls", c.Targets, c.Tail, c.Goroutines, c.Targets/c.Goroutines+4)
+	select {
+	case <-done:
+	case <-time.After(30 * time.Second):
+		mu.Lock()
+		defer mu.Unlock()
+		return fmt.Errorf("%s: callers are still blocked after 30 s (%d calls were answered)", what, answers)
+	}
+	if firstErr != nil {
+		return fmt.Errorf("%s: %v", what, firstErr)
+	}
+	return nil
+}
+
+func TestC15ErrorTail(t *testing.T) {
+	vh.Check(t, 10, 300, func(t *rapid.T) {
+		c := c15Tail{Targets: rapid.IntRange(0, 60).Draw(t, "targets"), Goroutines: rapid.SampledFrom([]int{1, 2, 4, 8}).Draw(t, "g"), Tail: rapid.SampledFrom([]string{"longheader", "readerror"}).Draw(t, "tail")}
+		vh.Case("C15.errortail", fmt.Sprintf("%+v", c), c.Goroutines >= 2, c.Tail)
+		vh.Sample("C15.errortail", c.Goroutines >= 2, c)
+		if err := runC15Tail(c); err != nil {
+			vh.Fail(t, "C15", "C15.errortail", c, err)
+		}
+	})
+}
+
+func init() { vh.RegisterReplay("C15.errortail", vh.Replayer(runC15Tail)) }
